@@ -340,7 +340,11 @@ void Future<void>::Private::FastSignal::set()
 void Future<void>::Private::FastSignal::reset()
 {
   if (Atomic::swap(_state, 0) == 1)
+  {
     _signal.reset();
+    if (Atomic::load(_state)) // a concurrent set() may have slipped in between the two steps above
+      _signal.set();
+  }
 }
 
 bool Future<void>::Private::FastSignal::wait()
